@@ -217,6 +217,16 @@ def shard(ctx):
     codes = model.iso3_list() + ["WOR"]
     codes = [("SWZ" if c == "SWT" else c) for c in codes]
     drive(ctx, herd_case(codes), lambda c: run_herd(ctx, c), 700 if thorough else 22, shrink=thorough, tag="herd")
+    # the world aggregate has every species: always run it at partial supply
+    from vlib.harness import Violation
+    for i, s_ in enumerate(herd.STRATEGIES):
+        if i % ctx.nshards != ctx.shard:
+            continue
+        ctx.count()
+        try:
+            run_herd(ctx, dict(code="WOR", strategy=s_, n=24, feed_mult=[0.3] * 24, grass_mult=[0.6] * 24))
+        except Violation as v:
+            ctx.record_violation(v)
 
 
 def replay(case, ctx):
